@@ -557,84 +557,76 @@ def type_roles(repo, res):
 @rule(
     "KERNEL-PROLOGUE",
     ["C07", "C18"],
-    "whatever the numba generators and all kernel templates (C and numba) put around the generated body is free of effects on "
-    "the kernel arguments: the numba prologue (an f-string, read as Python with its placeholders filled) consists exactly of "
-    "`name = numba.carray(_name, (size))` views; the text between a kernel's signature and its body slot in every template "
-    "contains no statement (C: only `{`; numba: only the slot)",
-    min_instances=6,
+    "whatever the C and numba integral and expression generators put around the generated body is free of effects on the kernel "
+    "arguments: the generators are interpreted on a sample IR with the body replaced by a marker and the emitted text is read back - "
+    "C: only `{` between signature and body and `}` after it; numba: the prologue parses as Python and consists exactly of "
+    "`name = numba.carray(_name, (size))` views, nothing follows the body",
+    min_instances=8,
 )
 def kernel_prologue(repo, res):
+    """The generators are interpreted on a sample IR with the kernel body replaced by a marker (genintegral.sample_kernel_text); what the
+    emitted text has between the kernel's signature and the marker, and after it, is read back."""
+    import re
     import textwrap
 
-    for kind, slot in (("integral", "tabulate_tensor"), ("expression", "tabulate_expression")):
-        g = repo.mod(f"ffcx.codegeneration.numba.{kind}").func("generator")
-        res.functions.add(g.key)
-        key = f"{g.key}:prologue"
-        res.ob(key)
-        # the value stored into the body slot: <prologue> + body
-        store = None
-        for n in ast.walk(g.node):
-            if isinstance(n, ast.Assign) and isinstance(n.targets[0], ast.Subscript) and isinstance(n.targets[0].slice, ast.Constant) \
-                    and n.targets[0].slice.value == slot:
-                store = n
-        if store is None:
-            raise AnalysisError(f"numba {kind} generator: store into the `{slot}` slot not found")
-        sl = Slicer(g.node)
-        parts = []
+    from ..absint import Raised
+    from .genintegral import MARK, sample_kernel_text
 
-        def flat(e):
-            if isinstance(e, ast.BinOp) and isinstance(e.op, ast.Add):
-                flat(e.left)
-                flat(e.right)
-            else:
-                parts.append(e)
-
-        flat(store.value)
-        texts = []
-        for p_ in parts:
-            cands = [p_] if not isinstance(p_, ast.Name) else sl.defs.get(p_.id, [])
-            for c_ in cands:
-                c_ = c_.value if isinstance(c_, ast.Assign) else c_
-                if isinstance(c_, ast.JoinedStr):
-                    txt = "".join(v.value if isinstance(v, ast.Constant) else "0" for v in c_.values)
-                    texts.append((p_, txt))
-                elif isinstance(c_, ast.Constant) and isinstance(c_.value, str):
-                    texts.append((p_, c_.value))
-        if not texts:
-            raise AnalysisError(f"numba {kind} generator: no literal prologue text found in `{ast.unparse(store.value)}`")
-        for p_, txt in texts:
-            try:
-                tree = ast.parse(textwrap.dedent(txt))
-            except SyntaxError as e:
-                res.fail(key, f"numba {kind} prologue is not valid Python: {e}", g.module.line(store), props=("C18",))
-                continue
-            for st in tree.body:
-                ok = (isinstance(st, ast.Assign) and len(st.targets) == 1 and isinstance(st.targets[0], ast.Name) and isinstance(st.value, ast.Call)
-                      and (call_name(st.value) or "") == "numba.carray" and len(st.value.args) == 2 and isinstance(st.value.args[0], ast.Name)
-                      and st.value.args[0].id == "_" + st.targets[0].id)
-                if not ok:
-                    res.fail(key, f"numba {kind} kernels execute `{ast.unparse(st)}` before the generated body: only views of the arguments may be created there "
-                             "(A must be accumulated into, not reset; inputs must not be written)", g.module.line(store))
     for be in ("C", "numba"):
-        for kind, slot in (("integral", "tabulate_tensor"), ("expression", "tabulate_expression")):
-            tm = repo.mod(f"ffcx.codegeneration.{be}.{kind}_template")
-            t = const_value(tm.assign("factory"))
-            key = f"{be}.{kind}_template:nothing-around-the-body"
-            res.ob(key)
-            i = t.find("{" + slot + "}")
-            if i < 0:
-                raise AnalysisError(f"{be} {kind} template has no {{{slot}}} slot")
-            if be == "C":
-                j = t.rfind(")", 0, i)
-                between = t[j + 1:i].strip()
-                after = t[i + len(slot) + 2:].lstrip()
-                if between.replace("{{", "{") != "{" or not after.startswith("}}"):
-                    res.fail(key, f"C {kind} template has text between the kernel signature and its body slot or after it: `{between[:60]}` ... `{after[:20]}`", tm.rel)
-            else:
-                j = t.rfind("):", 0, i)
-                between = t[j + 2:i].strip()
-                if between:
-                    res.fail(key, f"numba {kind} template executes `{between[:60]}` before the generated body", tm.rel)
+        for kind in ("integral", "expression"):
+            for scalar in ("float64", "complex64"):
+                try:
+                    text, obj, g = sample_kernel_text(repo, be, kind, scalar)
+                except Raised as e:
+                    g = repo.mod(f"ffcx.codegeneration.{be}.{kind}").func("generator")
+                    key = f"{g.key}:prologue:{scalar}"
+                    res.ob(key)
+                    res.fail(key, f"{be} {kind} generator raises ({e.what}) on the sample IR", g.module.line(g.node), props=("C18",) if be == "numba" else ("C07",))
+                    continue
+                res.functions.add(g.key)
+                key = f"{g.key}:prologue:{scalar}"
+                res.ob(key)
+                loc = g.module.line(g.node)
+                if text.count(MARK) != 1:
+                    res.fail(key, f"the {be} {kind} generator emits the kernel body {text.count(MARK)} times", loc)
+                    continue
+                if be == "C":
+                    m = re.search(rf"\bvoid\s+tabulate_tensor_{re.escape(obj)}\s*\([^)]*\)", text)
+                    if not m or m.end() > text.index(MARK):
+                        res.fail(key, f"the kernel function tabulate_tensor_{obj} does not enclose the generated body", loc)
+                        continue
+                    between = text[m.end():text.index(MARK)].strip()
+                    after = text[text.index(MARK) + len(MARK):].lstrip()
+                    if between != "{" or not after.startswith("}"):
+                        res.fail(key, f"the C {kind} kernel has text between its signature and the generated body, or after it: `{between[:80]}` ... `{after[:20]}`: "
+                                 "only the generated statements may run (A is accumulated into, inputs are not written)", loc)
+                else:
+                    m = re.search(rf"(?m)^def\s+tabulate_tensor_{re.escape(obj)}\s*\([^)]*\)\s*:[ \t]*\n", text)
+                    if not m or m.end() > text.index(MARK):
+                        res.fail(key, f"the kernel function tabulate_tensor_{obj} does not enclose the generated body", loc, props=("C18",))
+                        continue
+                    pro = text[m.end():text.index(MARK)]
+                    try:
+                        tree = ast.parse(textwrap.dedent(pro))
+                    except SyntaxError as e:
+                        res.fail(key, f"numba {kind} prologue is not valid Python: {e}", loc, props=("C18",))
+                        continue
+                    for st in tree.body:
+                        ok = (isinstance(st, ast.Assign) and len(st.targets) == 1 and isinstance(st.targets[0], ast.Name) and isinstance(st.value, ast.Call)
+                              and (call_name(st.value) or "") == "numba.carray" and len(st.value.args) == 2 and isinstance(st.value.args[0], ast.Name)
+                              and st.value.args[0].id == "_" + st.targets[0].id)
+                        if not ok:
+                            res.fail(key, f"numba {kind} kernels execute `{ast.unparse(st)}` before the generated body: only views of the arguments may be created there "
+                                     "(A must be accumulated into, not reset; inputs must not be written)", loc)
+                    # the rest of the function (same or deeper indentation) after the body
+                    tail = text[text.index(MARK) + len(MARK):]
+                    rest = []
+                    for line in tail.split("\n")[1:]:
+                        if line.strip() and not line.startswith((" ", "\t")):
+                            break
+                        rest.append(line)
+                    if "".join(rest).strip():
+                        res.fail(key, f"numba {kind} kernels execute `{' '.join(x.strip() for x in rest if x.strip())[:80]}` after the generated body", loc)
 
 
 @rule(
